@@ -1177,6 +1177,8 @@ def job(a):
     singles = {}
     try:
         for spec in specs:
+            with open(os.path.join(root, f"now_{os.getpid()}"), "w") as f:
+                f.write(repr(spec_key(spec)))   # for diagnosing stragglers
             r = check_member(spec, jroot)
             out["runs"] += r["runs"]
             out["members"] += 1
@@ -1370,10 +1372,12 @@ def product(ctx):
                               "seed": s, "budget": b}])
     if not q:
         names = dyn_names("sur")
-        skipped = set()
+        first = {}
         for idx, nm in enumerate(names):
+            first.setdefault(nm.split("_ann_")[0], idx)
+        for idx in sorted(first.values()):
+            nm = names[idx]
             if nm.startswith(DYN_SUR_SKIP):
-                skipped.add(nm)
                 continue
             for su in ("cmaes_raw", "cmaes_surrogate"):
                 for s in seeds_for(nm):
@@ -1381,10 +1385,12 @@ def product(ctx):
                         jobs.append([{"family": "dyn_sur", "setup": su,
                                       "idx": idx, "inst": nm, "seed": s,
                                       "budget": b}])
-        ctx.cap(f"controller synthesis (surrogate module): the "
-                f"{len(skipped)} instances on the three-coupled-oscillators "
-                "system are not executed, one member costs 10-15 "
-                "CPU-minutes (diverging simulations on the learned model)")
+        ctx.cap("controller synthesis (surrogate module): only the first "
+                "(controller, model) pair of the Stuart-Landau and of the "
+                f"Lorenz system, {len(first) - 1} of {len(names)} instances;"
+                " members on the three-coupled-oscillators system cost "
+                "10-15 CPU-minutes each (diverging simulations on the "
+                "learned model)")
     return jobs
 
 
